@@ -18,6 +18,13 @@ func init() { checks["pathlock"] = runPathLock }
 // OS file system): sequences of open / failing open / close on one path, with
 // the specification "the path lock is held iff a File is open" (C18).
 func runPathLock(rep *Report) {
+	tw, doneTw := traceWriter()
+	defer doneTw()
+	emit := func(format string, a ...interface{}) {
+		if tw != nil {
+			fmt.Fprintf(tw, format+"\n", a...)
+		}
+	}
 	dir, err := os.MkdirTemp("", "vh-c18-")
 	if err != nil {
 		rep.Failures = append(rep.Failures, FailureRec{Prop: "C18", Kind: "setup", Msg: err.Error()})
@@ -38,6 +45,18 @@ func runPathLock(rep *Report) {
 		good := txfile.Options{PageSize: 4096, MaxSize: 64 * 4096}
 		var held *txfile.File
 		var trace []string
+		emit("new")
+		class := func(res string) string {
+			switch {
+			case res == "ok":
+				return "ok"
+			case strings.Contains(res, "lock"):
+				return "lockErr"
+			case strings.Contains(res, "config"):
+				return "invalid"
+			}
+			return "initErr"
+		}
 		steps := 12
 		if *fTier == "thorough" {
 			steps = 40
@@ -78,6 +97,7 @@ func runPathLock(rep *Report) {
 			case op <= 2: // plain open
 				f, res := tryOpen(good)
 				trace = append(trace, "open=>"+res)
+				emit("pathop openOk => %s", class(res))
 				rep.Steps++
 				if held != nil {
 					rep.Markers["open-while-held"]++
@@ -101,12 +121,14 @@ func runPathLock(rep *Report) {
 					}
 					held = nil
 					trace = append(trace, "close")
+					emit("pathop close => ok")
 					rep.Markers["close"]++
 				}
 			case op == 4: // invalid options
 				bad := good
 				bad.PageSize = 3000
 				_, res := tryOpen(bad)
+				emit("pathop openInvalid => %s", class(res))
 				trace = append(trace, "open(invalid options)=>"+res)
 				rep.Markers["open-invalid-options"]++
 				if res == "ok" {
@@ -122,6 +144,7 @@ func runPathLock(rep *Report) {
 				dmg[4096+10] ^= 0xff
 				os.WriteFile(path, dmg, 0o600)
 				_, res := tryOpen(good)
+				emit("pathop openFail => %s", class(res))
 				trace = append(trace, "open(both headers damaged)=>"+res)
 				rep.Markers["open-damaged"]++
 				if res == "ok" {
@@ -133,6 +156,7 @@ func runPathLock(rep *Report) {
 				o.Flags = txfile.FlagUpdMaxSize
 				o.MaxSize = uint64(64+r.Intn(64)) * 4096
 				f, res := tryOpen(o)
+				emit("pathop openOk => %s", class(res))
 				trace = append(trace, "open(update max size)=>"+res)
 				rep.Markers["open-resize"]++
 				if res == "ok" {
@@ -160,6 +184,9 @@ func runPathLock(rep *Report) {
 				}
 				held.Close()
 				held = nil
+				emit("pathop close => ok")
+				emit("pathop openOk => ok")
+				emit("pathop close => ok")
 				select {
 				case res := <-done:
 					if res != "ok" {
@@ -174,13 +201,16 @@ func runPathLock(rep *Report) {
 		}
 		if held != nil {
 			held.Close()
+			emit("pathop close => ok")
 		}
 		// after everything: the path can be opened again immediately
 		f, res := tryOpen(good)
+		emit("pathop openOk => %s", class(res))
 		if res != "ok" {
 			fail(i, "final-open", "final Open failed (%s) after the sequence %v", res, trace)
 		} else {
 			f.Close()
+			emit("pathop close => ok")
 		}
 		rep.Programs++
 		rep.Distinct++
